@@ -420,6 +420,17 @@ fn make_batch(r: &mut Rng, typed: bool) -> Vec<Src> {
         }
         srcs.push(Src::Build { hist: h, borrowed: r.coin() });
     }
+    // the same, with the change made through each mutation path after the value was observed:
+    // twins are the direct histories without the detour
+    for m in crate::hist::qual_mutations("k", "w") {
+        let mut h = detour_base.hist();
+        h.calls.push(Call::Rebuild);
+        h.calls.push(m.clone());
+        srcs.push(Src::Build { hist: h, borrowed: r.coin() });
+        let mut h = detour_base.hist();
+        h.calls.push(m);
+        srcs.push(Src::Build { hist: h, borrowed: false });
+    }
     r.shuffle(&mut srcs);
     srcs.truncate(384);
     srcs
